@@ -8,7 +8,7 @@ from ..findings import still_fails
 ID = "C16"
 LEAN_MODULES = ["PycModel.Properties.C16"]
 NAMESPACES = ["PycModel.C16", "PycModel.ParenExpr", "PycModel.FullExpr", "PycModel.StmtSkel", "PycModel.TuFuel"]
-REQUIRED_THEOREMS = ["PycModel.C16.translation_unit_fuel_linear", "PycModel.TuFuel.extsFuel_linear", "PycModel.C16.scanner_linear_iterations", "PycModel.C16.each_token_lexed_once", "PycModel.C16.speculation_never_relexes", "PycModel.C16.whole_parse_lexes_each_token_once", "PycModel.C16.production_keeps_buffer_invariant", "PycModel.C16.expression_fuel_linear", "PycModel.C16.statement_fuel_linear", "PycModel.FullExpr.fuel_linear", "PycModel.StmtSkel.S.fuel_linear", "PycModel.C16.precedence_climbing_fuel_linear", "PycModel.ParenExpr.fuel_linear", "PycModel.C16.impl_star_height"]
+REQUIRED_THEOREMS = ["PycModel.C16.translation_unit_fuel_linear", "PycModel.TuFuel.extsFuel_linear", "PycModel.C16.scanner_linear_iterations", "PycModel.C16.each_token_lexed_once", "PycModel.C16.speculation_never_relexes", "PycModel.C16.whole_parse_lexes_each_token_once", "PycModel.C16.production_keeps_buffer_invariant", "PycModel.C16.expression_fuel_linear", "PycModel.C16.statement_fuel_linear", "PycModel.FullExpr.fuel_linear", "PycModel.TuFuel.S.fuel_linear", "PycModel.C16.precedence_climbing_fuel_linear", "PycModel.ParenExpr.fuel_linear", "PycModel.C16.impl_star_height"]
 LEVEL = "proof"
 TRUSTED = ["partial: CPython's re engine cost and wall-clock time are outside any model; a parser-level linear bound (ticks <= a*tokens + b for all inputs) is not proved - the model's tick counter is tied exactly to the real _TokenStream call counts and growth is measured on the families below"]
 ASSUMPTIONS = []
@@ -87,14 +87,19 @@ FAMILIES = {
     # derivations of ONE declarator (not nested in the recursion sense: sizes as for repetition)
     "rep-array-suffix": lambda k: "int a" + "[1]" * k + ";",
     "nest-abstract-fn-param": lambda k: "void f(int " + "(int " * k + ")" * k + ");",
+    # one specifier shared by several declarators (the parser must not copy it per declarator)
+    "nest-struct-multi-declarator": lambda k: "struct {" * k + "int x;" + "} a, b;" * k,
+    "rep-struct-members-declarators": lambda k: "struct S {" + "".join("int m%d;" % i for i in range(k)) + "} " + ",".join("v%d" % i for i in range(k)) + ";",
+    "rep-enum-declarators": lambda k: "enum E {" + ",".join("K%d" % i for i in range(k)) + "} " + ",".join("*e%d" % i for i in range(k)) + ";",
     "rep-sizeof-complit": lambda k: "void f(void) {" + "n += sizeof (int[2]){1, 2};" * k + "}",
 }
 NESTING = {n for n in FAMILIES if n.startswith("nest-")}
 
 
 class Counter:
-    """deterministic amount of work: source lines executed inside pycparser modules (so that loops
-    inside one function count, not only calls) + token-stream and lexer calls"""
+    """deterministic amount of work: source lines executed during the parse, in pycparser and in every
+    library module it calls into (so that loops inside one function and copies made by the standard
+    library count, not only calls) + token-stream and lexer calls"""
 
     def __init__(self):
         self.calls = 0      # executed lines
@@ -114,9 +119,11 @@ class Counter:
 
         def glob(frame, event, arg):
             fn = frame.f_code.co_filename
-            if "pycparser" not in fn:
-                return None
+            # lines of every module run on behalf of the parse count (copy.deepcopy, re wrappers, ...),
+            # not only those inside pycparser
             self.calls += 1
+            if "pycparser" not in fn:
+                return local
             nm = frame.f_code.co_name
             if fn.endswith("c_parser.py") and nm in ("peek", "next", "reset") and "self" in frame.f_locals and isinstance(frame.f_locals["self"], _TokenStream):
                 self.ts += 1
@@ -321,7 +328,7 @@ def run(ctx):
         if wall > limit:
             ctx.violation("lexer took %.1f s on %d characters of family %s" % (wall, size, name), {"kind": "regex-family", "family": name, "n": n})
     ctx.extra["regex_families_max_wall_s"] = round(max(w for _, _, _, w in lres), 3)
-    ctx.rule("%d scalable families (k-fold repetition of every declaration/statement kind; depth-k nesting of parentheses, casts, sizeof, calls, subscripts, initializer braces, blocks, if/else and ?: chains, pointer/array/function declarators, structs, compound literals, type names and compound literals inside array bounds, every 'type name or expression?' decision nested inside itself: sizeof / _Alignof / cast / _Alignas / offsetof / _Atomic( / _Static_assert / compound literal with and without postfix, function-pointer parameters, designators; loops, switch/case, labels) at 3-5 sizes: deterministic amount of work (source lines executed inside pycparser, via sys.settrace - loops inside a function count) must grow at most ~linearly between consecutive sizes, token-stream and lexer call counts must equal the Lean model's tick counters exactly, on the families and on every program of the pool; %d adversarial literal families for the lexer regexes with wall-time margins" % (len(FAMILIES), len(REGEX_FAMILIES)))
+    ctx.rule("%d scalable families (k-fold repetition of every declaration/statement kind; depth-k nesting of parentheses, casts, sizeof, calls, subscripts, initializer braces, blocks, if/else and ?: chains, pointer/array/function declarators, structs, compound literals, type names and compound literals inside array bounds, every 'type name or expression?' decision nested inside itself: sizeof / _Alignof / cast / _Alignas / offsetof / _Atomic( / _Static_assert / compound literal with and without postfix, function-pointer parameters, designators; loops, switch/case, labels) at 3-5 sizes: deterministic amount of work (source lines executed during the parse in pycparser and in every library module it calls, via sys.settrace - loops inside a function and standard-library copies count), struct / enum specifiers shared by k declarators, must grow at most ~linearly between consecutive sizes, token-stream and lexer call counts must equal the Lean model's tick counters exactly, on the families and on every program of the pool; %d adversarial literal families for the lexer regexes with wall-time margins" % (len(FAMILIES), len(REGEX_FAMILIES)))
     ctx.count(n_eval, nontrivial_n=n_eval)
     ctx.sample({"kind": "family", "name": "nest-complit-in-bound", "k": 3, "text": FAMILIES["nest-complit-in-bound"](3)})
 
